@@ -5,6 +5,7 @@ import (
 	"fmt"
 	"sort"
 	"strings"
+	"time"
 
 	"verifharness/c06"
 	"verifharness/kit"
@@ -132,7 +133,12 @@ type seqxCase struct {
 	Plain   []string     `json:"plain_outs"`
 }
 
+// handleWait: how long the underlying provider holds the first AppStorage call waiting for a second one (a
+// provider that serialises its callers never lets the second through: the first is then let go)
+const handleWait = 150 * time.Millisecond
+
 func runSeqX(h *c06.History) (kit.Case, error) {
+	sameHandles := false
 	run := func(cached bool) ([]string, error) {
 		clock := kit.NewClock()
 		st, cleanup, err := kit.NewBackend(h.Backend, clock)
@@ -142,7 +148,17 @@ func runSeqX(h *c06.History) (kit.Case, error) {
 		defer cleanup()
 		fs := &faultStore{IAppStorage: st}
 		handles := []istorage.IAppStorage{fs, fs}
-		if cached {
+		if cached && h.ConcurrentHandles {
+			// one caching provider, asked for the storage of the app by two overlapping first calls
+			hs, err := kit.TwoHandlesConcurrently(fs, handleWait, func(u istorage.IAppStorageProvider) istorage.IAppStorageProvider {
+				return istoragecache.Provide(cacheBytes, u, imetrics.Provide(), "verif", clock)
+			})
+			if err != nil {
+				return nil, err
+			}
+			handles[0], handles[1] = hs[0], hs[1]
+			sameHandles = hs[0] == hs[1]
+		} else if cached {
 			// one caching provider, asked twice for the storage of the same app
 			p := istoragecache.Provide(cacheBytes, kit.FixedProvider(fs), imetrics.Provide(), "verif", clock)
 			for i := range handles {
@@ -150,6 +166,7 @@ func runSeqX(h *c06.History) (kit.Case, error) {
 					return nil, err
 				}
 			}
+			sameHandles = handles[0] == handles[1]
 		}
 		outs := make([]string, len(h.Ops))
 		ss := c06.NewSession() // one caller: an items slice may come back through the other handle
@@ -200,6 +217,14 @@ func runSeqX(h *c06.History) (kit.Case, error) {
 	if twoHandles {
 		tags["two-handles"] = true
 	}
+	if h.ConcurrentHandles {
+		tags["handles-taken-concurrently"] = true
+	}
+	if sameHandles {
+		tags["handles:same-storage"] = true
+	} else {
+		tags["handles:distinct-storages"] = true
+	}
 	if recachedExpired(h, cachedOuts, plain) {
 		tags["F23:plain-get-recached-expired-ttl-row"] = true
 	}
@@ -213,8 +238,8 @@ func runSeqX(h *c06.History) (kit.Case, error) {
 		be = "Bbolt"
 	}
 	return kit.Case{
-		Coq:        fmt.Sprintf("TSeqX (mkXTrace %s %s %s %s)", be, kit.List(ops), kit.List(cachedOuts), kit.List(plain)),
-		Key:        "seqx|" + h.Backend + "|" + strings.Join(ops, "|"),
+		Coq:        fmt.Sprintf("TSeqX (mkXTrace %s %s %s %s %s)", be, kit.Bool(h.ConcurrentHandles), kit.List(ops), kit.List(cachedOuts), kit.List(plain)),
+		Key:        "seqx|" + h.Backend + "|" + kit.Bool(h.ConcurrentHandles) + "|" + strings.Join(ops, "|"),
 		Nontrivial: len(h.Ops) > 3 && (twoHandles || faults),
 		Desc:       seqxCase{Kind: "seqx", History: h, Plain: plain},
 		Tags:       tl,
